@@ -177,6 +177,10 @@ fn judge(w: &mut World, ctx: ReqCtx, p: &Prop, res: &Res, live: bool, dup: bool)
         Legal::Yes if dup => Legal::Open,
         other => other,
     };
+    if *res == Res::InvalidRequest {
+        let cur = w.cur;
+        w.conns[cur].refused_since_last_complete = true;
+    }
     *w.stats.probes.entry("invalid_probe_evaluated").or_insert(0) += 1;
     match l {
         Legal::No => {
@@ -245,6 +249,25 @@ pub fn invalid_probe(conn: &mut Conn<'_, '_>) -> Res {
         }
         (which, p)
     });
+    let conn_live = conn.is_connected() && !with(|w| w.cut);
+    // with a long keep-alive the application sometimes waits before and after the probe: the
+    // keep-alive traffic must come as if the refused request had never been made
+    let around = with(|w| {
+        let k = crate::broker::keepalive_eff(w, w.cur).unwrap_or(0) as u64;
+        if conn_live && k >= 11 && which <= 3 && w.tape.chance(1, 3) {
+            w.probe("invalid_probe_between_two_waits");
+            Some((5 + 1 + w.tape.choose((k - 10) as u32) as u64, k + 1))
+        } else {
+            None
+        }
+    });
+    if let Some((before, _)) = around {
+        let opts = ExecOpts { cancellable: true, idle_cancel: true, budget_us: Some(before * crate::clock::US_PER_S), timer_is_idle: false };
+        let r = do_wait(conn, Wait::Poll, Some(opts));
+        if r.is_fatal() || !conn.is_connected() {
+            return r;
+        }
+    }
     // (a run that was cut before this probe is not judged; one that is cut *by* this probe's own
     // packet - the reference decoder rejecting what was sent - still is)
     let live = conn.is_connected() && !with(|w| w.cut);
@@ -367,6 +390,13 @@ pub fn invalid_probe(conn: &mut Conn<'_, '_>) -> Res {
                     format!("quiescence/can_publish changed from {:?} to {:?} across a request refused with {}", snapshot, after, res.name()),
                 )
             });
+        }
+    }
+    if let (Some((_, after_s)), true) = (around, conn.is_connected() && !res.is_fatal() && !with(|w| w.qos0_cancelled)) {
+        let opts = ExecOpts { cancellable: true, idle_cancel: true, budget_us: Some(after_s * crate::clock::US_PER_S), timer_is_idle: false };
+        let r = do_wait(conn, Wait::Poll, Some(opts));
+        if r.is_fatal() || !conn.is_connected() {
+            return r;
         }
     }
     res
